@@ -243,7 +243,8 @@ def _harness(flavour, name, sources=None, link="so", libs=("enc",), extra_cflags
         else:
             cmd += ["-I" + api]
         cmd += ["-I" + HARNESS_SRC, "-I" + gen_dir()]
-        cmd += srcs + ["-o", out]
+        tmp_out = out + ".%d.tmp" % os.getpid()
+        cmd += srcs + ["-o", tmp_out]
         if link == "so":
             L = libdir(flavour)
             cmd += ["-L" + L, "-Wl,-rpath," + L]
@@ -255,6 +256,7 @@ def _harness(flavour, name, sources=None, link="so", libs=("enc",), extra_cflags
         r = subprocess.run(cmd, stdout=subprocess.PIPE, stderr=subprocess.STDOUT, text=True)
         if r.returncode != 0:
             raise BuildError("harness %s/%s failed:\n%s\n%s" % (flavour, name, " ".join(cmd), r.stdout[-6000:]))
+        os.replace(tmp_out, out)  # never rewrite an executable that another check may be running
         open(stamp, "w").write(flagsig)
     return out
 
